@@ -88,19 +88,56 @@ def xref_stream_widths(ctx, F):
     R = "R-TABLE"
     b = F.fn("Writer::create_xref_steam")
     # per entry arm: push(1 byte) + extend(to_be_bytes u32: 4) + extend(2 bytes)
-    pushes = [c for c in lib.calls_named(b, r"Vec::<.*>::push$") if "xref_stream" in b.oname(c.args[0], 2)]
-    exts = [c for c in lib.calls_named(b, r"iter::Extend::extend$") if "xref_stream" in b.oname(c.args[0], 2)]
+    # the byte buffer: the Vec<u8> local that receives the entry bytes (by data flow, whatever it is called)
+    from collections import Counter
+    recv = Counter()
+    for c in lib.calls_named(b, r"Vec::<.*>::push$|iter::Extend::extend$|Vec::<.*>::extend_from_slice$"):
+        o = lib.origin_local(F, b, c.args[0])
+        if o is not None and o[0] is b and not o[2] and re.match(r"^std::vec::Vec<u8", b.lty(o[1])):
+            recv[o[1]] += 1
+    BUF = recv.most_common(1)[0][0] if recv else None
+
+    def on_buf(c):
+        o = lib.origin_local(F, b, c.args[0])
+        return o is not None and o[0] is b and not o[2] and o[1] == BUF
+    pushes = [c for c in lib.calls_named(b, r"Vec::<.*>::push$") if on_buf(c)]
+    exts = [c for c in lib.calls_named(b, r"iter::Extend::extend$|Vec::<.*>::extend_from_slice$") if on_buf(c)]
     sizes = []
-    for c in exts:
+
+    def appended_bytes(c):
+        """how many bytes the call appends: from the type of what is appended ([u8; N], a byte literal, vec![a, b])"""
         full = c.full or ""
         m = re.search(r"Extend<u8>>::extend::<\[u8; (\d+)\]>", full)
         if m:
-            sizes.append(int(m.group(1)))
-        elif "Vec<u8>" in full:
-            # vec![0, 0]
-            sizes.append(2 if "from_elem" not in b.oname(c.args[1], 3) else -1)
-        else:
-            sizes.append(-1)
+            return int(m.group(1))
+        kb = lib._const_bytes_through(b, c.args[1])
+        if kb is not None:
+            return len(kb)
+        o = c.args[1]
+        for _ in range(5):
+            q = op_place(o)
+            if q is None:
+                break
+            m = re.match(r"^&?(?:mut )?\[u8; (\d+)\]$", b.lty(q["l"])) if not q["p"] else None
+            if m:
+                return int(m.group(1))
+            d = b.single_def(q["l"]) if not q["p"] else None
+            if d is None:
+                break
+            if d[2] == "rv" and d[3]["k"] in ("use", "cast"):
+                o = d[3]["o"]
+            elif d[2] == "rv" and d[3]["k"] == "ref":
+                o = {"c": d[3]["p"]}
+            elif d[2] == "rv" and d[3]["k"] == "agg" and d[3]["kind"].get("a") == "array":
+                return len(d[3]["ops"])
+            else:
+                break
+        if "Vec<u8>" in full:
+            lit = lib.vec_literal(b, c.args[1])
+            return len(lit) if lit is not None else (2 if "from_elem" not in b.oname(c.args[1], 3) else -1)
+        return -1
+    for c in exts:
+        sizes.append(appended_bytes(c))
     ok = len(pushes) == 4 and sorted(sizes) == [2, 2, 2, 2, 4, 4, 4, 4]
     ctx.ob(R, "xref-stream-entry-bytes", ok, "each of the 4 entry kinds pushes 1 + 4 + 2 bytes (extend sizes %s)" % sorted(sizes), b.where(),
            what="create_xref_steam does not push 1 + 4 + 2 bytes for each of the four entry kinds (push calls %d, extend sizes %s)" % (len(pushes), sorted(sizes)))
@@ -127,17 +164,33 @@ def xref_stream_widths(ctx, F):
                     okw = how == [1, 4, 2]
     ctx.ob(R, "xref-stream-W", okw, "W = %s" % how, w.where(), what="the W array of the cross-reference stream is not [1 4 2], the widths create_xref_steam writes (%s)" % how)
     # Index pairs and stream length come from the same serialisation
-    idx = [c for c in lib.calls_named(b, r"Vec::<.*>::push$") if "xref_index" in b.oname(c.args[0], 2)]
+    idx = [c for c in lib.calls_named(b, r"Vec::<.*>::push$") if not on_buf(c) and re.match(r"^&?(mut )?std::vec::Vec<object::Object", b.operand_type(c.args[0]) if hasattr(b, "operand_type") else
+           (b.lty((lib.origin_local(F, b, c.args[0]) or (b, 0, []))[1])))]
     it = [b.oname(c.args[1], 5) for c in idx]
     okx = len(idx) == 2 and "starting_id" in it[0] and ("len(" in it[1] and "entries" in it[1])
     ctx.ob(R, "xref-stream-Index", okx, "Index pairs are (section.starting_id, section.entries.len()): %s" % it, b.where(),
            what="the Index array is not built from each serialised section's first id and entry count (%s)" % it)
+    # Length: the value write_cross_reference_stream sets comes out of create_xref_steam as a component of its result (tuple or
+    # struct); there it is `len()` of the byte buffer the entries were pushed into
     sl = None
-    for l, n in b.names.items():
-        if n == "stream_length":
-            d = b.single_def(l)
-            sl = b.lname(l, 0) if d is None else (b.rvname(d[3], 3) if d[2] == "rv" else "%s(%s)" % (d[3]["f"].get("fn", "").rsplit("::", 1)[-1], ",".join(b.oname(a, 3) for a in d[3]["args"])))
-    ctx.ob(R, "xref-stream-Length", sl is not None and "len(" in sl and "xref_stream" in sl, "stream_length = %s" % sl, b.where(), what="the cross-reference stream's length is not the length of the serialised entries (%s)" % sl)
+    okl = False
+    for k, v, c in sets:
+        if k == b"Length":
+            comp = lib.call_component(F, w, v)
+            if comp is not None and comp[0] is b:
+                d = b.def_rv(comp[1])
+                q = comp[1]
+                for _ in range(4):
+                    d = b.single_def(op_place(q)["l"]) if op_place(q) is not None and not op_place(q)["p"] else None
+                    if d is not None and d[2] == "rv" and d[3]["k"] in ("use", "cast"):
+                        q = d[3]["o"]
+                        continue
+                    break
+                sl = b.sname(comp[1], 4)
+                if d is not None and d[2] == "call" and (d[3]["f"].get("fn") or "").endswith("::len") and d[3]["args"]:
+                    o = lib.origin_local(F, b, d[3]["args"][0])
+                    okl = o is not None and o[0] is b and o[1] == BUF
+    ctx.ob(R, "xref-stream-Length", okl, "Length = %s" % sl, b.where(), what="the cross-reference stream's length is not the length of the serialised entries (%s)" % sl)
     tv = [w.oname(v, 6) for k, v, c in sets if k == b"Type"]
     ctx.ob(R, "xref-stream-Type", any("XRef" in t for t in tv), "Type = XRef", w.where(), what="the cross-reference stream dictionary is not typed /XRef")
     ins = lib.calls_named(w, r"Xref::insert$")
